@@ -274,11 +274,13 @@ sts_n(Source *source, Sink *sink, const size_t n)
         const ssize_t rc = shortcut
             ? sts_atmost_via_source(source, sink, rest)
             : sts_atmost(source, sink, rest);
-        if (rc == -ENOMEM) {
+        if (rc == -ENOMEM && !shortcut
+            && channel_has_buffer_ext(source, sink))
+        {
             /* This means that the sink buffer is out of memory. If the source
              * can provide a buffer in the next iteration, we can go on,
              * otherwise we cannot. */
-            shortcut = channel_has_buffer_ext(source, sink);
+            shortcut = true;
             continue;
         } else if (rc < 0) {
             return rc;
